@@ -233,7 +233,11 @@ func Verif_C04_histories() {
 // depend on the choices.
 func Verif_C04_serialisations() {
 	nws := 0
+	padded := false
 	wsb := func() []byte {
+		if padded {
+			return []byte{' '} // the padded variant is about the window edge only
+		}
 		b := verifrt.Byte("ws")
 		verifrt.Assume(b == 0 || b == 9 || b == 10 || b == 12 || b == 13 || b == 32)
 		out := []byte{b}
@@ -249,6 +253,18 @@ func Verif_C04_serialisations() {
 	payload := verifrt.Bytes("payload", 2)
 	var f bytes.Buffer
 	f.WriteString("<<")
+	// optionally a long comment, so that byte j of the name is the first
+	// byte beyond the scanner's first window
+	pad := 0
+	if verifrt.Bool("padded") {
+		padded = true
+		pad = scannerBufSize - 3 - verifrt.Len("j", 0, 8)
+		f.WriteString("%")
+		for i := 0; i < pad; i++ {
+			f.WriteByte('c')
+		}
+		f.WriteString("\n")
+	}
 	f.Write(wsb())
 	// the name /AB, each byte plain or #-escaped
 	f.WriteString("/")
@@ -264,7 +280,11 @@ func Verif_C04_serialisations() {
 		}
 	}
 	f.Write(wsb())
-	switch verifrt.Choice("stringform", 3) {
+	form := 1
+	if !padded {
+		form = verifrt.Choice("stringform", 3)
+	}
+	switch form {
 	case 0: // hex string with optional white space inside and symbolic case
 		f.WriteString("<")
 		for _, c := range payload {
@@ -301,7 +321,13 @@ func Verif_C04_serialisations() {
 	f.WriteString("12 0 R")
 	f.Write(wsb())
 	f.WriteString(">>")
-	obj, ok := verifParseOne(f.Bytes())
+	var obj Native
+	var ok bool
+	if pad > 0 {
+		obj, ok = verifParseFrom(bytes.NewReader(f.Bytes()))
+	} else {
+		obj, ok = verifParseOne(f.Bytes())
+	}
 	verifrt.Cover("rendered")
 	verifrt.Assert(ok, "conforming rendering parses")
 	d, isDict := obj.(Dict)
